@@ -559,7 +559,7 @@ func (r *Reg) Prelude() string {
 			emitSort(e)
 			sb.WriteString(seqTheoryFor(e))
 			if e == "Ev" {
-				sb.WriteString("(define-fun tr_prefix ((a Seq_Ev) (b Seq_Ev)) Bool (and (<= (len_Ev a) (len_Ev b)) (= (sub_Ev b 0 (len_Ev a)) a)))\n")
+				sb.WriteString("(define-fun tr_prefix ((a Seq_Ev) (b Seq_Ev)) Bool (and (<= (len_Ev a) (len_Ev b)) (forall ((i Int)) (! (=> (and (<= 0 i) (< i (len_Ev a))) (= (at_Ev b i) (at_Ev a i))) :pattern ((at_Ev b i))))))\n")
 			}
 			return
 		}
